@@ -725,6 +725,9 @@ func ruleR15cd(c *Ctx) {
 				}
 				okGranted := s&cdGRANTED != 0 && s&cdUNLOCKED != 0 && s&cdRECHECKED != 0
 				okQueued := s&cdNOTGRANTED != 0 && s&cdREMOVED != 0
+				if s&cdNOTGRANTED != 0 && s&cdUNLOCKED != 0 {
+					oblD.violate(name+":cancel-reconciles-under-mutex", ins.Pos(), "a cancelled request that was NOT granted gives accounts back: it deletes the lock entries of the current holder, a third request then reads the balance before the holder's log is persisted", pc.Trail())
+				}
 				if !okGranted && !okQueued {
 					what := "does not examine whether the intent was granted meanwhile"
 					if s&cdGRANTED != 0 {
@@ -747,6 +750,7 @@ func ruleR15cd(c *Ctx) {
 	ruleR15e(c, isRecheck)
 	ruleR15g(c, "R15g")
 	ruleLockListDetails(c, "R15h")
+	ruleAccessorsAgreeWithWalks(c, "R15i")
 	if nUnlockCalls == 0 {
 		oblC.undecided("floor:unlock-call-sites", token.NoPos, "no call of lockIntent.unlock found")
 	}
